@@ -14,6 +14,26 @@ func (e eng) Generate(seed uint64, prop, tier string) any {
 		// connected UDP sockets (Client.Dial / Client.Enroll): boundaries and one Write, one datagram
 		return GenerateClient(seed, prop, tier)
 	}
+	if prop == "C19" && seed%6 == 4 {
+		// the control API on an engine whose listeners are all UDP (no acceptor, loop 0 owns
+		// the listener table): the same answers, in particular once the shutdown has completed
+		p := GenerateUDP(seed, tier)
+		r := runner.NewRand(seed ^ 0xc19)
+		for u := r.Range(1, 2); u > 0; u-- {
+			var up UserPlan
+			for j := r.Range(1, 4); j > 0; j-- {
+				k := []string{"validate", "countx", "dup", "duplistener", "register-none", "pause"}[r.Intn(6)]
+				up.Ops = append(up.Ops, UserOp{K: k, N: r.Range(1, 20)})
+			}
+			up.Ops = append(up.Ops, UserOp{K: "await-stop"})
+			for j := r.Range(1, 4); j > 0; j-- {
+				k := []string{"validate", "countx", "dup", "duplistener", "register-none", "stopctx", "stopctx"}[r.Intn(7)]
+				up.Ops = append(up.Ops, UserOp{K: k, N: r.Intn(3)})
+			}
+			p.Users = append(p.Users, up)
+		}
+		return p
+	}
 	if prop == "C08" || (prop == "C17" || prop == "C06" || prop == "C05") && seed%7 == 0 {
 		return GenerateUDP(seed, tier)
 	}
